@@ -1734,8 +1734,16 @@ def call_counts(log):
 def monitor_c04(r):
     """Notifications: never answered (count of responses, HTTP body), executed exactly once (invocation counters after the
     drain) — also when the dispatcher blows up on them."""
-    if not case_domain(r) or r.parse_error:
+    if not case_domain(r):
         return None
+    if r.parse_error:
+        # "a well-formed request": what the body is, is not for the parser under test to say — a JSON text (RFC 8259) that
+        # holds a well-formed notification and was answered as a parse failure has been answered, and has not been executed
+        import servercases_ws as sw
+        r2 = sw.reread(r)
+        m = monitor_c04(r2) if r2 is not None else None
+        return ("RFC 8259 accepts the body, which holds a well-formed notification, yet it was turned away as a parse "
+                "failure: " + m) if m else None
     kind, exps = expected_entries(r)
     if not any(e["notif"] for e in exps):
         return None
@@ -1785,6 +1793,14 @@ def _rfc_rejects(body):
 def monitor_c05(r):
     if not case_domain(r):
         return None
+    if r.parse_error:
+        # -32700 is for malformed JSON: a body RFC 8259 accepts (read by the harness itself, servercases_ws.reread) whose
+        # entries call for a result or another code did not get them
+        import servercases_ws as sw
+        r2 = sw.reread(r)
+        m = monitor_c05(r2) if r2 is not None else None
+        if m:
+            return "RFC 8259 accepts the body, yet it was answered as a parse failure: " + m
     if r.kind == "err":
         if r.parse_error or _rfc_rejects(r.case["body"]):
             # "Malformed JSON (or a payload the class translator rejects) is answered with a single -32700 error"
@@ -2143,6 +2159,10 @@ def std_cases(ctx, em):
     #    request (malformed/…, wellformed/…); scaled by em["translated"], em["structid"], em["malformed"] (absent: not generated)
     import servercases_ext as sx
     sx.extend_cases(ctx, em, rng, cases)
+    # n) the input classes of harness/servercases_ws.py: the requests generated above wrapped in insignificant white space
+    #    (ws/…, em["ws"]) or followed / preceded by text that is not white space (garbage/…, em["garbage"])
+    import servercases_ws as sw
+    sw.extend_cases(ctx, em, rng, cases)
     return cases
 
 
@@ -2189,6 +2209,9 @@ def standard_run(ctx, pid, monitors, project, em, rule):
         hk = r.case.get("hist")
         for k in ([hk] if isinstance(hk, str) else (hk or [])):
             ctx.hist["class:" + k] += 1
+    if em.get("ws"):
+        import servercases_ws as sw
+        sw.twin_check(ctx, results, monitors[0][0])
     if em.get("textlayer"):
         import servercases_ext as sx
         sx.text_layer_check(ctx, results)
@@ -2223,6 +2246,15 @@ def replay_case(payload, monitors):
     print("dispatcher ->", r.kind, repr(r.raw)[:1000])
     print("invocation log:", [e[:3] for e in r.log])
     bad = 0
+    if "bare" in case:
+        import servercases_ws as sw
+        try:
+            m = sw.replay_twin(case)
+        finally:
+            stop_shared_pool()
+        if m:
+            print("VIOLATION reproduced: %s" % m)
+            bad = 1
     for name, mon in monitors:
         m = mon(r)
         if m:
